@@ -20,6 +20,8 @@ def universe(rng, n, flavour):
         base = pool[:n] if n <= len(pool) else pool + list(range(100, 100 + n - len(pool)))
     elif flavour == "tuple":
         base = [(i, "a" * (i % 3)) for i in range(n)]
+    elif flavour == "inttuple":
+        base = [(i, -i * i) for i in range(n)]
     else:
         pool = ["", "a", "ab", b"a", 1.5, -2.25, (1, 2), (1, (2, 3)), 3, -1, "k", "é", ("x",), 10**20, b"", 0.1]
         base = pool[:n] if n <= len(pool) else pool + [f"m{i}" for i in range(n - len(pool))]
@@ -31,18 +33,28 @@ def colliding_universe(kind, p, seed, n, rng):
     """Items searched offline so that they collide under the REAL hash of this configuration:
     about half of them share all hash values with item 1, the rest are arbitrary."""
     probe = Adaptor(kind, p, seed, [])
-    base = f"base{rng.randrange(1000)}"
+    # CountMinSketch hashes with builtin hash(): str hashes change per process (PYTHONHASHSEED), which
+    # would make the case (and a saved replay) irreproducible -> integers for cms, strings elsewhere
+    stable = kind == "cms"
+    base = 5000 + rng.randrange(1000) if stable else f"base{rng.randrange(1000)}"
     hv = probe.hash_values(base)
     out = [base]
     j = 0
     want = max(1, n // 2)
     while len(out) <= want and j < 3000:
-        cand = f"c{j}"
+        cand = 10000 + j if stable else f"c{j}"
         j += 1
-        if probe.hash_values(cand) == hv:
+        cv = probe.hash_values(cand)
+        if kind == "hll":
+            hit = cv[0] == hv[0]                  # same register, any run length (max / merge matter)
+        elif len(out) % 2:
+            hit = cv == hv                        # full collision
+        else:
+            hit = cv != hv and any(a == b for a, b in zip(cv, hv))   # partial overlap
+        if hit:
             out.append(cand)
     while len(out) < n:
-        out.append(f"o{len(out)}")
+        out.append(20000 + len(out) if stable else f"o{len(out)}")
     rng.shuffle(out)
     return [repr(x) for x in out[:n]]
 
@@ -95,6 +107,8 @@ def _uni(kind, p, seed, ni, rng):
     r = rng.random()
     if kind in MERGEABLE and r < 0.4:
         return colliding_universe(kind, p, seed, ni, rng)
+    if kind == "cms":       # process-independent builtin hashes only (see colliding_universe)
+        return universe(rng, ni, rng.choice(("int", "inttuple", "int", "inttuple")))
     return universe(rng, ni, rng.choice(("str", "int", "tuple", "mixed")))
 
 
@@ -178,7 +192,8 @@ def component_cases(rng, kind, n_cases, max_len):
     for k in range(n_cases):
         p = dims(kind, rng)
         ni = (p[0] + rng.randint(0, 3)) if kind == "topk" else rng.randint(1, 6)
-        U = universe(rng, ni, rng.choice(("str", "int", "mixed")))
+        fl = rng.choice(("str", "int", "mixed"))
+        U = universe(rng, ni, "int" if kind == "cms" else fl)
         n = rng.randint(1, max_len)
         L = stream(rng, ni, n, rng.choice(SHAPES))
         t = 0
